@@ -231,11 +231,26 @@ def run_match(sc):
         except Exception:
             pass
     else:
+        then = sc.get("then")       # expectThat only: the stage that expected goes on to raise a skip ("test", "setUp", "cleanup")
+
         class Case(TestCase):
-            def test_it(self):
+            def _expect(self):
                 for name in pre:
                     self.addDetail(name, content.text_content("pre:" + name))
                 attempt(getattr(self, api))
+                if then:
+                    self.skipTest("skipped after the expectation")
+
+            def setUp(self):
+                super().setUp()
+                if then == "cleanup":
+                    self.addCleanup(self._expect)
+                elif then == "setUp":
+                    self._expect()
+
+            def test_it(self):
+                if then in (None, "test"):
+                    self._expect()
 
         result = ExtendedTestResult()
         Case("test_it").run(result)
@@ -262,12 +277,14 @@ def run_match(sc):
                 "%s does not raise here (mismatch: %r)" % (api, desc if mismatched else None))
     if api == "assert_that":
         return
-    require(outcome == ("addFailure" if mismatched else "addSuccess"), seen,
-            "the test %s" % ("fails once it has finished" if mismatched else "succeeds"))
+    then = sc.get("then")
+    require(outcome == ("addFailure" if mismatched else "addSkip" if then else "addSuccess"), seen,
+            "the test %s" % ("fails once it has finished%s" % (" (a skip raised after the failed expectation in %s does not undo that)" % then if then else "")
+                             if mismatched else "is skipped" if then else "succeeds"))
     for name in pre:
         require(texts.get(name) == "pre:" + name, seen, "pre-existing detail %r is not clobbered" % name)
     if not mismatched:
-        require(set(texts) == set(pre), seen, "a matching assertion attaches nothing")
+        require(set(texts) - ({"reason"} if then else set()) == set(pre), seen, "a matching assertion attaches nothing")
         return
     times = repeat if api == "expectThat" else 1
     for name, t in mm_details.items():
@@ -342,6 +359,10 @@ def gen_api():
         for value, api, vb, msg, rep, pre in itertools.product(("match", "other\né"), APIS, (False, True), MESSAGES, (1, 2, 3), PRES_API):
             yield {"kind": "match", "matcher": matcher, "value": value, "api": api, "verbose": vb,
                    "message": msg, "repeat": rep, "pre": pre}
+            if api == "expectThat" and not vb and msg == MESSAGES[0] and pre == PRES_API[0]:
+                for then in ("test", "setUp", "cleanup"):
+                    yield {"kind": "match", "matcher": matcher, "value": value, "api": api, "verbose": vb,
+                           "message": msg, "repeat": rep, "pre": pre, "then": then}
 
 
 def gen_leaves():
